@@ -5,6 +5,7 @@ left-handed sensors flip x; pixel_agg reduces over exactly each sensor's pixels.
 import MagpyVerif.Lemmas.Level2Shape
 import MagpyVerif.Lemmas.OctaCarrier
 import MagpyVerif.Lemmas.Level2Post
+import MagpyVerif.Lemmas.Audit2C04
 namespace MagpyVerif.C04
 open MagpyVerif MagpyVerif.Level2
 variable {G V : Type}
@@ -206,6 +207,38 @@ theorem pixel_agg_named_is_reduction_of_sensor_frame_values (flipX : V → V) (v
   have hfn : agg.fn vmin vmax = some (aggList agg vmin vmax) := by cases agg <;> first | rfl | exact absurd rfl hagg
   rw [hfn] at h
   exact pixel_agg_is_reduction_of_sensor_frame_values flipX entries sensors _ out hs h l m k e s hl hm hk r p hr hp
+/-- (audit2) the data of the returned array do not depend on `squeeze` (only the shape does): `np.squeeze` /
+`np.expand_dims` do not touch the values.  By definition of the model (`getBHF` computes `data` before it looks at `squeeze`); the
+numpy side of this is assumed and exercised by the streams. -/
+theorem getBHF_data_squeeze_irrelevant (flipX : V → V) (entries : List (Entry G V)) (sensors : List (Sens G V))
+    (sumup squeeze : Bool) (agg : Option (List V → V)) :
+    (getBHF flipX entries sensors sumup squeeze agg).map (·.data) =
+      (getBHF flipX entries sensors sumup false agg).map (·.data) := by
+  unfold getBHF
+  cases level2CoreF flipX entries sensors sumup agg <;> rfl
+
+/-- (audit2) `pixel_agg_is_reduction_of_sensor_frame_values` for either value of `squeeze` (the theorem above fixes
+`squeeze = false`; `sumup = true` is Props/C05 `sumup_of_pixel_agg_is_sum_of_aggregates` = `Level2.getBHF_sumup_agg_elem`) -/
+theorem pixel_agg_is_reduction_of_sensor_frame_values_any_squeeze (flipX : V → V) (squeeze : Bool)
+    (entries : List (Entry G V)) (sensors : List (Sens G V)) (f : List V → V)
+    (out : Out V) (hs : ∀ k ∈ sensors, k.WF)
+    (h : getBHF flipX entries sensors false squeeze (some f) = .ok out) (l m k : Nat)
+    (e : Entry G V) (s : Sens G V) (hl : entries[l]? = some e)
+    (hm : m < pathLen (entries.flatMap Entry.leaves) sensors) (hk : sensors[k]? = some s)
+    (r : G) (p : V) (hr : clampGet s.ori m = some r) (hp : clampGet s.pos m = some p) :
+    out.data[(l * pathLen (entries.flatMap Entry.leaves) sensors + m) * sensors.length + k]? =
+      some (f (s.pixels.map fun px =>
+        let v := r⁻¹ • ((e.leaves.map fun src => level1 src m (r • px + p)).sum)
+        if s.left then flipX v else v)) := by
+  have hd := getBHF_data_squeeze_irrelevant flipX entries sensors false squeeze (some f)
+  rw [h] at hd
+  cases h0 : getBHF flipX entries sensors false false (some f) with
+  | error err => rw [h0] at hd; cases hd
+  | ok out0 =>
+    rw [h0] at hd
+    have hdata : out.data = out0.data := by simpa [Except.map] using hd
+    rw [hdata]
+    exact pixel_agg_is_reduction_of_sensor_frame_values flipX entries sensors f out0 hs h0 l m k e s hl hm hk r p hr hp
 end aggAny
 
 -- non-vacuity: on the scene `Level2.Example` with different pixel shapes ((2,) and (3,)) the call with an arbitrary
@@ -264,6 +297,144 @@ example : ∀ k ∈ drvSensors, k.RotsOct ∧ k.ori ≠ [] ∧ k.pos.length = k.
 open Level2.DriverExample in
 example : sensTOp (G := M3 Int) drvFlip ⟨[⟨7, 0, 0⟩, ⟨8, 1, 0⟩], [rotZ90, 1], [⟨0, 0, 0⟩, ⟨1, 0, 0⟩], [2], true⟩ 0 ⟨1, 2, 3⟩
     = ⟨-2, -1, 3⟩ := by decide
+-- (audit2) `sensor_frame_on_driver_carrier` APPLIED (the example above only lists its hypotheses): for the left-handed
+-- driver-style sensor rotated by 90° about z at its first step, any slice and any tensor
+open Level2.DriverExample in
+example (lo hi : Nat) (B : List (List (List (V3 Int)))) (k : SensZ) (hk : k ∈ drvSensors) :
+    sensorFrame drvFlip k lo hi B =
+      B.map fun Bl => Bl.mapIdx fun m row => row.mapIdx fun j v =>
+        if lo ≤ j ∧ j < hi then sensTOp drvFlip k m v else v :=
+  sensor_frame_on_driver_carrier drvFlip k (drvSensors_rotsOct k hk) (drvSensors_WF k hk).1 (drvSensors_WF k hk).2.1 lo hi B
+
+/-! #### (audit2) `pixel_agg_is_reduction_of_sensor_frame_values` on the driver's carrier
+
+The c03post theorem is over an abstract `Group G`; its non-vacuity example evaluates `getBHF` at `M3 Int` (not a group)
+and never applies the theorem.  Here it is transferred to the `M3 Int` evaluation (decidable hypotheses) and APPLIED to a
+driver-style scene with different pixel shapes, a left-handed rotating sensor and a sensor whose path is shorter than the
+longest one. -/
+
+/-- **C04 pixel_agg on the driver's carrier**: integer matrix operations (`⁻¹` = transpose), all orientation matrices of the
+scene octahedral, `f` ANY function of the pixel list -/
+theorem pixel_agg_is_reduction_of_sensor_frame_values_on_driver_carrier (flipX : V3 Int → V3 Int)
+    (entries : List EntryZ) (sensors : List SensZ) (f : List (V3 Int) → V3 Int) (out : Out (V3 Int))
+    (heo : ∀ e ∈ entries, e.RotsOct) (hso : ∀ k ∈ sensors, k.RotsOct) (hs : ∀ k ∈ sensors, k.WF)
+    (h : getBHF flipX entries sensors false false (some f) = .ok out) (l m k : Nat)
+    (e : EntryZ) (s : SensZ) (hl : entries[l]? = some e)
+    (hm : m < pathLen (entries.flatMap Entry.leaves) sensors) (hk : sensors[k]? = some s)
+    (r : M3 Int) (p : V3 Int) (hr : clampGet s.ori m = some r) (hp : clampGet s.pos m = some p) :
+    out.data[(l * pathLen (entries.flatMap Entry.leaves) sensors + m) * sensors.length + k]? =
+      some (f (s.pixels.map fun px =>
+        let v := r⁻¹ • ((e.leaves.map fun src => level1 src m (r • px + p)).sum)
+        if s.left then flipX v else v)) := by
+  obtain ⟨es, rfl⟩ := exists_oct_entries entries heo
+  obtain ⟨ks, rfl⟩ := exists_oct_sensors sensors hso
+  rw [getBHF_mapG octHom] at h
+  rw [List.getElem?_map] at hl hk
+  obtain ⟨e', hl', rfl⟩ := Option.map_eq_some_iff.mp hl
+  obtain ⟨s', hk', rfl⟩ := Option.map_eq_some_iff.mp hk
+  rw [flatMap_leaves_mapG, pathLen_mapG] at hm ⊢
+  have hs' : ∀ k ∈ ks, k.WF := fun k h => (Sens.mapG_WF Oct.toM3 k).mp (hs _ (List.mem_map_of_mem h))
+  have := getBHF_agg_elem flipX es ks f out hs' h l m k e' s' hl' hm hk'
+  rw [List.length_map, this, ← sensor_reading_on_driver_carrier flipX e'.toM3 s'.toM3 m r p hr hp,
+     pixPos_at_Oct_eq_at_M3Int]
+  congr 2
+  apply List.map_congr_left
+  intro x _
+  exact (specValue_at_Oct_eq_at_M3Int flipX e' s' m x).symm
+
+section aggDriverExample
+open Level2.DriverExample Level2.Example
+
+/-- driver-style sensors with DIFFERENT pixel shapes ((2,) and (3,)): the first left-handed with a 2-step path, rotated by
+90° about z at its first step; the second with a 1-step path (shorter than the longest path, 2), rotated by 90° about x -/
+def mixSensors : List SensZ :=
+  [⟨[⟨7, 0, 0⟩, ⟨8, 1, 0⟩], [rotZ90, 1], [⟨0, 0, 0⟩, ⟨1, 0, 0⟩], [2], true⟩,
+   ⟨[⟨0, 5, 0⟩], [rotX90], [⟨0, 0, 0⟩, ⟨0, 0, 1⟩, ⟨0, 0, 2⟩], [3], false⟩]
+
+theorem mixSensors_rotsOct : ∀ k ∈ mixSensors, k.RotsOct := by
+  simp only [mixSensors, Sens.RotsOct, List.mem_cons, List.not_mem_nil, or_false, forall_eq_or_imp, forall_eq]
+  decide
+theorem mixSensors_WF : ∀ k ∈ mixSensors, k.WF := by simp [mixSensors, Sens.WF, pixNum]
+theorem mix_notBad (f : List (V3 Int) → V3 Int) : ¬ BadInputF drvEntries mixSensors (some f) := by
+  simp [BadInputF, drvEntries, mixSensors, Entry.leaves]
+theorem mix_pathLen : pathLen (drvEntries.flatMap Entry.leaves) mixSensors = 2 := by
+  simp [pathLen, drvEntries, mixSensors, Entry.leaves]
+theorem drv_leaves0 : (drvEntries.headD (.coll [])).leaves =
+    [⟨[⟨3, 0, 0⟩, ⟨4, 0, 0⟩], [1, rotZ90], fun x => x + ⟨1, 0, 0⟩⟩, ⟨[⟨0, 0, 2⟩], [rotX90], fun x => x + x⟩] := by
+  simp [drvEntries, Entry.leaves]
+
+/-- componentwise maximum (the model's `aggList .max`, what the integer driver runs for `pixel_agg="max"`) -/
+def drvMaxV : List (V3 Int) → V3 Int := aggList .max exMin exMax
+
+-- the theorem APPLIED (every hypothesis instantiated) with the non-linear reduction `max`: element (0, 0, 0) — the
+-- left-handed sensor at its rotated first step, two pixels — and element (0, 1, 1) — the three-pixel sensor, whose
+-- one-step path stays at its last pose at m = 1; the values are those of the explicit sensor-frame formula
+example : ∃ out, getBHF drvFlip drvEntries mixSensors false false (some drvMaxV) = .ok out ∧
+    out.data[(0 * 2 + 0) * 2 + 0]? = some ⟨0, -19, -4⟩ ∧ out.data[(0 * 2 + 1) * 2 + 1]? = some ⟨-4, -4, -10⟩ := by
+  have h := getBHF_ok drvFlip drvEntries mixSensors false false (some drvMaxV) (mix_notBad _)
+  refine ⟨_, h, ?_, ?_⟩
+  · have := pixel_agg_is_reduction_of_sensor_frame_values_on_driver_carrier drvFlip drvEntries mixSensors drvMaxV _
+      drvEntries_rotsOct mixSensors_rotsOct mixSensors_WF h 0 0 0 (drvEntries.headD (.coll [])) _ rfl
+      (by rw [mix_pathLen]; decide) rfl rotZ90 ⟨7, 0, 0⟩ rfl rfl
+    rw [mix_pathLen, drv_leaves0] at this
+    exact this.trans (by decide)
+  · have := pixel_agg_is_reduction_of_sensor_frame_values_on_driver_carrier drvFlip drvEntries mixSensors drvMaxV _
+      drvEntries_rotsOct mixSensors_rotsOct mixSensors_WF h 0 1 1 (drvEntries.headD (.coll [])) _ rfl
+      (by rw [mix_pathLen]; decide) rfl rotX90 ⟨0, 5, 0⟩ rfl rfl
+    rw [mix_pathLen, drv_leaves0] at this
+    exact this.trans (by decide)
+end aggDriverExample
 end driverCarrier
+
+/-! ### (audit2) instantiation with the numpy reductions of Model/PixelAgg
+
+The c03post theorems quantify over every `f`, but no carrier in the development had BOTH the algebraic structure they need
+(`AddCommGroup V`, a group acting on it) AND the reductions `mean / median / std / ptp` (which need `Num α`: only `Float`
+and `ℝ`).  Lemmas/Audit2C04.lean: the octahedral group `Oct` acts on `V3 ℝ` (the model's own `M3.apply` / `+` / `-`). -/
+section realCarrier
+/-- (audit2) **the `level2f` driver command, at the real numbers**: `Driver/Level2FFam.run` evaluates
+`match PixelAgg.byName name with | some a => getBHF flipX es ks sumup squeeze a` (at `Float`).  The same expression at
+`V3 ℝ`, with the octahedral group acting on it, IS an instance of `pixel_agg_is_reduction_of_sensor_frame_values`: for
+every reduction name the model knows (`sum, mean, min, max, median, std, ptp`), element `(l, m, k)` is that reduction of
+Model/PixelAgg over the sensor-frame values of sensor `k`'s own pixels. -/
+theorem named_numpy_reduction_is_reduction_of_sensor_frame_values (name : String) (f : List (V3 ℝ) → V3 ℝ)
+    (_hname : PixelAgg.byName (α := ℝ) name = some (some f)) (flipX : V3 ℝ → V3 ℝ)
+    (entries : List (Entry Oct (V3 ℝ))) (sensors : List (Sens Oct (V3 ℝ)))
+    (out : Out (V3 ℝ)) (hs : ∀ k ∈ sensors, k.WF)
+    (h : getBHF flipX entries sensors false false (some f) = .ok out) (l m k : Nat)
+    (e : Entry Oct (V3 ℝ)) (s : Sens Oct (V3 ℝ)) (hl : entries[l]? = some e)
+    (hm : m < pathLen (entries.flatMap Entry.leaves) sensors) (hk : sensors[k]? = some s)
+    (r : Oct) (p : V3 ℝ) (hr : clampGet s.ori m = some r) (hp : clampGet s.pos m = some p) :
+    out.data[(l * pathLen (entries.flatMap Entry.leaves) sensors + m) * sensors.length + k]? =
+      some (f (s.pixels.map fun px =>
+        let v := r⁻¹ • ((e.leaves.map fun src => level1 src m (r • px + p)).sum)
+        if s.left then flipX v else v)) :=
+  pixel_agg_is_reduction_of_sensor_frame_values flipX entries sensors f out hs h l m k e s hl hm hk r p hr hp
+
+/-- a left-handed three-pixel sensor rotated by 90° about z, reading the field `B(x) = x` of a source at the origin -/
+noncomputable def realSensors : List (Sens Oct (V3 ℝ)) :=
+  [⟨[⟨0, 0, 0⟩], [⟨Level2.DriverExample.rotZ90, Level2.DriverExample.isOct_rotZ90⟩],
+    [⟨1, 0, 0⟩, ⟨2, 0, 0⟩, ⟨4, 0, 0⟩], [3], true⟩]
+noncomputable def realEntries : List (Entry Oct (V3 ℝ)) := [.leaf ⟨[⟨0, 0, 0⟩], [1], fun x => x⟩]
+
+-- non-vacuity with `np.median` (Model/PixelAgg.npMedian componentwise): every hypothesis instantiated, theorem applied
+example : ∃ out, getBHF (fun a : V3 ℝ => ⟨-a.x, a.y, a.z⟩) realEntries realSensors false false
+      (some (PixelAgg.comp PixelAgg.npMedian)) = .ok out ∧
+    ∃ vals : List (V3 ℝ), vals.length = 3 ∧ out.data[0]? = some (PixelAgg.comp PixelAgg.npMedian vals) := by
+  have hok : ¬ BadInputF realEntries realSensors (some (PixelAgg.comp (PixelAgg.npMedian (α := ℝ)))) := by
+    simp [BadInputF, realEntries, realSensors, Entry.leaves]
+  have h := getBHF_ok (fun a : V3 ℝ => ⟨-a.x, a.y, a.z⟩) realEntries realSensors false false _ hok
+  refine ⟨_, h, ?_⟩
+  have hpl : pathLen (realEntries.flatMap Entry.leaves) realSensors = 1 := by
+    simp [pathLen, realEntries, realSensors, Entry.leaves]
+  have := named_numpy_reduction_is_reduction_of_sensor_frame_values "median" _ rfl _ realEntries realSensors _
+    (by intro k hk
+        simp only [realSensors, List.mem_singleton] at hk
+        subst hk
+        exact ⟨by simp, rfl, rfl⟩) h 0 0 0 _ _ rfl (by rw [hpl]; decide) rfl _ _ rfl rfl
+  have h0 : (0 * pathLen (realEntries.flatMap Entry.leaves) realSensors + 0) * realSensors.length + 0 = 0 := by simp
+  rw [h0] at this
+  exact ⟨_, by simp, this⟩
+end realCarrier
 
 end MagpyVerif.C04
